@@ -288,8 +288,8 @@ def open_connection(lz4, hs='ready', split=None):
                 if step < 2:       # OPTIONS / STARTUP travel before any framing: not this property's business
                     raise HarnessError('v5 setup %s: node holds %r at step %d, expected %s; %s' % (hs, got, step, op, state()))
                 if st.get('unreadable'):
-                    problem = ('unreadable-by-server', step, 'the node cannot read what the driver sent in answer to %s: %s' % (
-                        H['requests'][step - 1] + ' response', st['unreadable'][0]))
+                    problem = ('unreadable-by-server', step, 'the node cannot read what the driver sent after the answer to %s: %s' % (
+                        H['requests'][step - 1], st['unreadable'][0]))
                 elif conn.is_defunct or conn.is_closed:
                     crc = isinstance(conn.last_error, CrcMismatchException)
                     problem = ('clean', step, '%s on the intact answer to request %d (%s): %s' % (
